@@ -3296,6 +3296,8 @@ static int expand_define () {
         {
           if (*e == '#' && *(e + 1) == '#')
             e += 2;
+          if (!*e)
+            break;		/* macro text ended with ## */
           if (*e == MARKS)
             {
               if (*++e == MARKS)
